@@ -233,6 +233,9 @@ class LocalAnomalyScore(BaseLocalAnomalyScore):
         self :
             Reference to self.
         """
+        # Cloned here rather than only in __init__ so that it always carries the
+        # current parameters of `cost` (nested `set_params` changes them in place).
+        self._any_subset_cost = self.cost.clone()
         self._interval_cost.fit(X)
         return self
 
